@@ -356,6 +356,7 @@ class C05(Monitor):
     def start(self, ctx):
         self.fare = collections.defaultdict(float)
         self.fare_state = collections.defaultdict(float)
+        self.fare_state_unknown = set()
         self.paid = collections.defaultdict(float)
         self.recv = collections.defaultdict(float)
         # the tariff table of the input, read independently of the code (generated scenarios only)
@@ -423,6 +424,9 @@ class C05(Monitor):
         # pickup record was filed)
         for v in s.vehicles.values():
             p = prev.vehicles.get(v.id)
+            if p is not None and aname(p) == "DispatchTrip" and aname(v) == "OutOfService":
+                # arrived, took the request on board and ran dry within one step: the boarding cannot be seen in the state
+                self.fare_state_unknown.add(v.id)
             if aname(v) == "ServicingTrip" and (p is None or getattr(p.vehicle_state, "instance_id", None) != v.vehicle_state.instance_id):
                 r = v.vehicle_state.request
                 self.fare_state[v.id] += float(prev.requests[r.id].value) if r.id in prev.requests else float(r.value)
@@ -437,7 +441,7 @@ class C05(Monitor):
             if abs(v.balance - exp) > 1e-6 * max(1.0, abs(exp)):
                 ctx.violate("C05", "vehicle-balance", f"vehicle {v.id} balance {v.balance} != fares {self.fare[v.id]} - payments {self.paid[v.id]}", vehicle=v.id)
             exp2 = self.fare_state[v.id] - self.paid[v.id]
-            if abs(v.balance - exp2) > 1e-6 * max(1.0, abs(exp2)):
+            if v.id not in self.fare_state_unknown and abs(v.balance - exp2) > 1e-6 * max(1.0, abs(exp2)):
                 ctx.violate("C05", "vehicle-balance-vs-requests-taken-on-board", f"vehicle {v.id} balance {v.balance} != value of the requests it took on board {self.fare_state[v.id]} - payments {self.paid[v.id]}", vehicle=v.id)
         for st in s.stations.values():
             exp = self.recv[st.id]
